@@ -391,6 +391,13 @@ def check_conversion(fmt, variant, opts, workdir):
                             % (path, k, n, len(rows))))
                 outcome.append((path, tuple(tuple(r) for r in rows)))
                 continue
+        if idx == []:
+            # The selection takes no frame from this (shorter) pass: the statement asks nothing of its columns or well
+            # section; whatever file is written for it must not hold data rows, and the conversion as a whole must succeed.
+            if rows:
+                bad.append(({'kind': 'rows_for_empty_selection', 'format': fmt}, '%s: %d rows written for an empty selection %r of %d frames' % (path, len(rows), sel, n)))
+            outcome.append((path, 0))
+            continue
         if len(rows) != len(idx):
             lost_last = len(rows) == len(idx) - 1
             bad.append(({'kind': 'row_count', 'format': fmt, 'last_selected_frame_missing': lost_last},
@@ -498,7 +505,15 @@ def gen_cases(tier, fmt):
     if fmt == 'rp66':
         yield {'variant': {'origin': 'minimal'}, 'opts': dict(DEFAULT)}
     # part F
-    ns = [1, 2, 3, 4, 5, 10] if tier == 'quick' else list(range(1, 11))
+    if tier == 'thorough':
+        # every channel subset x reduction x width x format against every 7-frame slice with a step (incl. negative ones)
+        for sel in all_selections(N, negative_steps=(fmt in NEGATIVE_STEP_FORMATS)):
+            if sel[0] != 'slice' or sel[3] in (None, 1):
+                continue
+            for chs in CHANNEL_SETS[fmt][1:3]:
+                for red in ('mean', 'max'):
+                    yield {'variant': {'two': True}, 'opts': {'sel': sel, 'channels': chs, 'reduction': red, 'width': 16, 'fmt': '.6f'}}
+    ns = [1, 2, 3, 4, 5, 10] if tier == 'quick' else list(range(1, 13))
     for n in ns:
         for two in (False, True):
             for extra in ({}, {'indirect': 68}, {'layout': 'split'}, {'fpr': 4, 'fpb': 2}, {'updown': 1, 'xyz': (97, 100, 0.25)}):
@@ -513,6 +528,11 @@ def gen_cases(tier, fmt):
                     v['two'] = True
                 for sel in (None, ['slice', None, None, 2], ['sample', 2]):
                     yield {'variant': v, 'opts': dict(DEFAULT, sel=sel)}
+                if two and not extra and n >= 5:
+                    # a selection that takes frames from the longer pass and none from the shorter one
+                    for chs in CHANNEL_SETS[fmt][:2]:
+                        for sel in (['slice', n - 1, None, None], ['slice', n - 2, n - 1, 2]):
+                            yield {'variant': dict(v, n1=max(1, n - 3)), 'opts': dict(DEFAULT, sel=sel, channels=chs)}
                 if fmt == 'lis' and two and not extra:
                     yield {'variant': dict(v, cons2=False), 'opts': dict(DEFAULT)}
                     yield {'variant': dict(v, cons2=False, cons=False), 'opts': dict(DEFAULT)}
